@@ -371,6 +371,13 @@ func ctxClass(e *vlib.Env, decorator bool) vlib.Result {
 				p = decProbe
 			}
 			err := p.Publish("t", ms...)
+			// the slice handed over is the caller's: same messages in the same order afterwards, whatever the outcome
+			for i, a := range batch {
+				if ms[i] != a.msg {
+					fail("caller-batch-rewritten", "the slice passed to Publish was rewritten by the decorator (call returned %v): position %d held message %d and now holds %q", err, i, a.idx, uuidOf(ms[i]))
+					break
+				}
+			}
 			for _, a := range batch {
 				a.tolerated = tolerated
 				if err != nil {
